@@ -173,7 +173,7 @@ def real_programs(progs, thorough, seed):
                 out.append({"pool": pool, "fill": True, "prog": pr, "pidx": i})
             # the same program with every scripted object held through type-erased handles (`.erase()`: the handle's
             # static type says nothing about the destructor that runs); raw pools have no handle Drop to vary
-            if pr["op"] == "drop" and not pool.startswith("Raw") and (thorough or i % 2 == 0):
+            if pr["op"] == "drop" and not pool.startswith("Raw") and (thorough or pr["n"] == 1 or i % 2 == 0):
                 out.append({"pool": pool, "fill": False, "erased": True, "prog": pr, "pidx": i})
     return out
 
